@@ -361,6 +361,20 @@ pub fn run(ctx: &Ctx) -> Report {
     report.absorb(r);
     report.assume("nesting depth of generated inputs ≤ 8 (the property is bounded in nesting depth)");
     report.assume("in-process rendering of ariadne reports into a buffer follows the same code path as the CLI's eprint");
+    // (d) checker-deep inputs: mutants of generated well-typed core programs (every C03 operator plus free-form
+    // clause edits): whatever the verdict, the front end must return it
+    let cfg = ctx.tier.pick(crate::core::generate::Cfg::quick(), crate::core::generate::Cfg::thorough());
+    let cases = ctx.tier.pick(400, 20_000);
+    let r = run_tapes(ctx, "core-mutants", cases, 700, |tape, stats| {
+        let (texts, _) = crate::props::c03::mutant_texts(ctx, tape, &cfg, 8);
+        let path = thread_dir(ctx).join("mutant.zy");
+        for (text, label) in texts {
+            check_input(&path, &text, &json!({"origin": "core-mutant", "mutation": label}), stats)?;
+            stats.count("core-mutant");
+        }
+        Ok(())
+    });
+    report.absorb(r);
     if ctx.tier == Tier::Thorough && std::env::var_os("VERIF_NO_FUZZ").is_none() {
         crate::fuzzrun::campaign(ctx, "C10", 300_000, &mut report);
     }
